@@ -711,8 +711,10 @@ class tensor:
             )
         rprod = 1 if rdims.size == 0 else np.prod(np.array(tshape)[rdims])
         cprod = 1 if cdims.size == 0 else np.prod(np.array(tshape)[cdims])
+        # permute() copies; keep the documented no-copy path of copy=False (a view when the
+        # requested arrangement already matches the memory layout)
         data = np.reshape(
-            self.permute(dims).data,
+            to_memory_order(np.transpose(self.data, dims), self.order),
             (rprod, cprod),
             order=self.order,
         )
@@ -1281,8 +1283,10 @@ class tensor:
 
         # Np transpose does error checking on order, acts as permutation
 
+        # np.transpose returns a view and to_memory_order keeps it when the layout
+        # already matches (e.g. the identity permutation): always copy
         return ttb.tensor(
-            to_memory_order(np.transpose(self.data, order), self.order), copy=False
+            np.transpose(self.data, order).copy(order=self.order), copy=False
         )
 
     def reshape(self, shape: Shape) -> tensor:
